@@ -11,7 +11,7 @@ CHECK = {
     "technique": "epoch-based-reclamation client on the real Epoch under schedule perturbation (hook points in "
                  "Epoch::lock and the low_water_mark scan); use-after-reclaim detector (ASan real delete / poison + "
                  "state word), offline oracle over stamped tick / low_water_mark / region histories, exact sequential "
-                 "model; TSan/ASan/UBSan",
+                 "model; TSan/ASan/UBSan; store-buffering litmus of the Epoch::lock entry fence on real hardware (no hooks)",
     "level_text": ("Runtime monitoring of the real Epoch: writers unlink a shared cell, tick(), poll low_water_mark() and "
                    "reclaim when the mark reaches their tick; readers open thread-local or Accessor regions (nested 1-4, "
                    "short and long, accessors created / released / reused / kept idle / handed to other threads while "
